@@ -18,8 +18,12 @@ TRUSTED = [
 
 RULE = ("random real parameter points above all thresholds, |s - m_R^2| > 0.12: n_channels 1..3 (quick 1..2), n_poles 1..4 "
         "(quick 1..2), L 0..4, PhaseSpaceFactor/Abs/Complex; per point: K from parametrization vs documentation formula, T and "
-        "T-hat vs numpy K(1-iK)^-1, |S^dagger S - 1|, |T - T^T|, formulate(parametrize=True) vs two-stage evaluation; "
-        "distinct = distinct generated parameter points")
+        "T-hat vs numpy K(1-iK)^-1, |S^dagger S - 1|, |T - T^T|, formulate(parametrize=True) vs two-stage evaluation and its unitarity; "
+        "plus poles below the PSEUDO-threshold (ma-mb)^2 of an unequal-mass channel (all three variants, L 0..4: hard obligations; "
+        "rho(m_R^2) compared with sqrt((x-(ma+mb)^2)(x-(ma-mb)^2))/x); plus poles in the gap (ma-mb)^2 < m_R^2 < (ma+mb)^2: "
+        "PhaseSpaceFactorAbs with L=0 must be unitary, PhaseSpaceFactor/Complex are reported under "
+        "kmatrix_subthreshold_pole_not_unitary only when T is symmetric, every differential check passes and the sibling with "
+        "the poles above threshold is unitary; distinct = distinct generated parameter points")
 
 
 def _chain(chk, symgen_args, gen, lemmas, prop, timeout):
@@ -36,12 +40,20 @@ def run(chk):
         "theorems are about exact complex values of the regenerated expressions (no floating point), wherever they are defined "
         "(wdMC: all denominators of SymPy's symbolic inverse non-zero)",
         "relativistic unitarity needs rho_i real > 0 (above threshold, phase-space variants that are real there) and K-hat real symmetric",
-        "unitarity of the relativistic K-matrix is NOT claimed for poles below a channel threshold with PhaseSpaceFactor / "
+        "unitarity of the relativistic K-matrix is NOT claimed for poles in the gap (ma-mb)^2 < m_R^2 < (ma+mb)^2 of a channel with PhaseSpaceFactor / "
         "PhaseSpaceFactorComplex: width_real_nonneg fails there (C09_width_not_real_below_threshold_refuted; known finding "
         "kmatrix_subthreshold_pole_not_unitary)",
         "per-size link from code to formula for n_channels = 1, 2 (quick) and 3 (thorough); the algebraic theorem itself holds for all n",
     ]
     ok = _chain(chk, ["1,2"], "Gen_C09.v", "C09_lemmas.v", "C09.v", 900)
+    # the phase-space factor at the pole mass (trees of C11's generator, C11's base tactics)
+    rc, out, _ = chk.bridge("symgen_C11.py", [os.path.join(chk.build, "Gen_C11.v")], timeout=600)
+    if rc != 0:
+        chk.obligations.extend(chk.theorem_names(os.path.join(checklib.COQ_PROPS, "C09_phsp.v")))
+        chk.broken.append({"file": "symgen_C11.py", "item": "model regeneration", "coqc_output": out[-1500:]})
+        ok = False
+    else:
+        ok = chk.compile_chain(["Gen_C11.v"], ["C11_base.v", "C09_phsp_lemmas.v"], "C09_phsp.v", timeout=600) and ok
     if chk.tier == "thorough" and ok:
         ok = _chain(chk, ["3"], "Gen_C09_n3.v", "C09_n3_lemmas.v", "C09_n3.v", 1500) and ok
     n = 420 if chk.tier == "thorough" else 45
